@@ -337,6 +337,37 @@ func faultedStreams(base []byte, rng *splitmix, maxExhaustive int, samples int, 
 	return exhaustive
 }
 
+// mixedIndentInBody is an oracle of its own for one clause of C05 ("indentation mixing tabs and spaces is
+// reported as an error"): it reads the bytes, not the lexer. It answers true only where the rule certainly
+// applies - a line between a --- line and the next === line that has content other than a comment and whose
+// leading white space contains both a tab and a space.
+func mixedIndentInBody(b []byte) (bool, int) {
+	inBody := false
+	// a line ends at \r\n, \n or a lone \r (the lexer's NEWLINE is [\r\n]+)
+	text := strings.ReplaceAll(strings.ReplaceAll(string(b), "\r\n", "\n"), "\r", "\n")
+	for n, line := range strings.Split(text, "\n") {
+		trimmed := strings.TrimLeft(line, " \t")
+		switch {
+		case !inBody:
+			if line == "---" {
+				inBody = true
+			}
+			continue
+		case trimmed == "===" || line == "===":
+			inBody = false
+			continue
+		}
+		if trimmed == "" || strings.HasPrefix(trimmed, "//") {
+			continue
+		}
+		ws := line[:len(line)-len(trimmed)]
+		if strings.Contains(ws, " ") && strings.Contains(ws, "\t") {
+			return true, n + 1
+		}
+	}
+	return false, 0
+}
+
 func validSeed(s string) bool {
 	for _, r := range s {
 		if !((r >= '0' && r <= '9') || (r >= 'a' && r <= 'z')) {
